@@ -1,6 +1,36 @@
 package txsubmission
 
-import "github.com/blinklabs-io/gouroboros/protocol"
+import (
+	"github.com/blinklabs-io/gouroboros/connection"
+	"github.com/blinklabs-io/gouroboros/protocol"
+)
 
-// Overlay shim: the protocol's initial state (the value client.go/server.go pass as InitialState).
+// Overlay shim: initial state, and server/client objects built without goroutines. The result
+// channel gets a one-slot buffer so that a sequential harness can run the real reply handler
+// before the real request call picks the reply up.
+
 func VerifInitialState() protocol.State { return stateInit }
+
+func VerifNewServer(cfg *Config, id connection.ConnectionId) *Server {
+	s := &Server{config: cfg, Protocol: protocol.VerifRecordingProtocol(StateMap, stateIdle),
+		requestTxIdsResultChan: make(chan requestTxIdsResult, 1), requestTxsResultChan: make(chan []TxBody, 1)}
+	s.callbackContext = CallbackContext{Server: s, ConnectionId: id}
+	return s
+}
+
+func VerifServerHandle(s *Server, msg protocol.Message) error { return s.messageHandler(msg) }
+func VerifServerAck(s *Server) int                             { return s.ackCount }
+
+func VerifNewClient(cfg *Config, id connection.ConnectionId) *Client {
+	c := &Client{config: cfg, Protocol: protocol.VerifRecordingProtocol(StateMap, stateIdle)}
+	c.callbackContext = CallbackContext{Client: c, ConnectionId: id}
+	return c
+}
+
+func VerifClientHandle(c *Client, msg protocol.Message) error { return c.messageHandler(msg) }
+
+// VerifInjectDone queues what handleDone hands to a waiting RequestTxIds call (handleDone
+// itself restarts the protocol, which needs a muxer and goroutines).
+func VerifInjectDone(s *Server) {
+	s.requestTxIdsResultChan <- requestTxIdsResult{err: ErrStopServerProcess}
+}
